@@ -227,13 +227,13 @@ ADDENDA = {
     "C01": " Also decided here (re-decided from C02/C06 because the generator and the legality filter rest on them): the castling-rights table CastlingRightsLost over all (From,To) classes, and the attack queries behind IsChecked/IsAttacked/IsAttackedBy/IsCheckMate together with the boards they read (rotated-view windows, slider rays, leaper and pawn tables, Attackboard dispatch: the C06 rules, for every square). R01-ep (rules of C02): the en-passant target of the successor is set by a jump and cleared by every other move, so the e.p. captures generated are the legal ones.",
     "C03": " Hand-back: PopMove is the exact inverse of PushMove, the game result included (R08-inverse re-decided; defect F23). The window clause reads, as corrected after defect F19: the child's bounds are negations of the parent's bounds translated by the inverse of the mate-distance increment, decided as the identity Negate(IncrementMateDistance(bound handed down)) = parent's bound on every abstract score region (R03-window). Also decided: the move loop is left early only on alpha >= beta or cancellation; no node returns on a cut-off before a move was tried or the mate/stalemate verdict produced; the score algebra of C09 including DecrementMateDistance (re-decided as R03-scores); MoveList.Next is empty-exact. Also decided (R03-handback, defect F35): the no-legal-move verdict, which AdjudicateNoLegalMoves writes into the board, is taken back by the search function itself on every path (at the root no take-back would do it).",
     "C04": " Also decided: every call of a halting Engine method in the command loop is preceded by the deactivation helper (a superseded search never gets a bestmove of its own; R16-supersede re-decided as R04-single); a go always halts what the engine still has registered before it launches. Also decided (rules of C16, re-decided under R04-single): a completion is tied to its search, cannot win the cleared flag (a late stop after a self-ended search would answer twice), is claimed and emitted by the command loop, under fresh ids. Also decided (R04-position, rules of C10): the game the engine answers for is the one the last position command describes - line committed only after all moves were applied and forgotten when one fails, reset on a non-continuation, token-boundary continuation test, every FEN field decoded, no move refused on account of the game result.",
-    "C05": " Also decided: the shape of HasInsufficientMaterial (piece sets of both colours, case split 2/3/4 and thresholds, the bishops' square colours told by a colour-complex mask - R05-dead, which exposed defect F18); that a forked board carries clock, counters and shared past (R05-fork); that the per-hash gate of the re-count is sound (C07's delta rule re-decided as R05-hashgate). Also decided (R05-takeback, rule of C08): PopMove is the exact inverse of PushMove on the per-hash counters, the clock and the saved result, so a game with take-backs is adjudicated like the game without them.",
+    "C05": " Also decided: the shape of HasInsufficientMaterial (piece sets of both colours, case split 2/3/4 and thresholds, the bishops' square colours told by a colour-complex mask - R05-dead, which exposed defect F18); that a forked board carries clock, counters and shared past (R05-fork); that the per-hash gate of the re-count is sound (C07's delta rule re-decided as R05-hashgate). Also decided (R05-takeback, rule of C08): PopMove is the exact inverse of PushMove on the per-hash counters, the clock and the saved result, so a game with take-backs is adjudicated like the game without them. R05-counters (defect F39): the clock a FEN hands to the board is bounded from above, so counting on cannot wrap it negative.",
     "C06": " IsCheckMate: 'not mate' is never decided for a side in check without consulting the legal moves. A 'not attacked' answer of an attack query rests on an empty intersection with the attackers (or an empty attacker set), not on a prefilter.",
     "C09": " Also decided: DecrementMateDistance and IncrementMateDistance are mutually inverse (R09-decr); the int8 mate distance never wraps around - the constructor maps every int8 into [-127,127], nothing else writes the field, and Negate/Increment/Decrement/MateDistance keep the range on every path (R09-range, defect F25). The order clauses are decided region-wise on |k| <= 126 and as constants for the neighbour pairs at the ends of the range, where the saturating increment collapses the order: listed as known finding F33.",
     "C10": " Also decided: the continuation test of the position arm compares the new line with the remembered one at a token boundary (R10-prefix, defect F20); a continuation must extend the remembered line by a move list (second obligation of R10-prefix, defect F31); Engine.Move's text match is exact on origin, destination and promotion (R19-move re-decided as R10-move). Also decided (R10-decode, rule of C14): fen.Decode hands every field of the text on to the position and values it returns, each from its own field. Also decided (R10-accept): no branch of Engine.Move is decided by Board.Result(), so a move list is applied also past a claimable draw.",
     "C08": " The result clause reads, as corrected after defect F23: a take-back restores the game result the board reported before the move, claimable draws included.",
     "C12": " Also decided: the mate/stalemate verdict (which writes the board's result) is produced only on paths where no move was pushed, and PopMove is the exact inverse of PushMove on everything the board reports, the game result included (R08-inverse re-decided; defect F23), so a halted search hands the board back as received.",
-    "C19": " Also decided (R19-pushsrc): every move pushed on a board outside the board package derives from the position's own generator; fen.NewBoard fails it and is listed as known finding F26. Also decided (R19-meta, defect F22): some decision in the decoding family depends on both the castling rights and the placement, on both the en-passant square and the placement, and on both the en-passant square and the side to move, and rejects or repairs. Also decided (R19-homes, defects F22/F34): each castling right is checked against its own king and rook home squares, and the validating function accepts only placements with exactly one king per side. R19-index also covers the command loops of both drivers (defect F36): a token picked by a constant index or a constant-bounded sub-list of the split input line is dominated by a length test.",
+    "C19": " Also decided (R19-pushsrc): every move pushed on a board outside the board package derives from the position's own generator; fen.NewBoard fails it and is listed as known finding F26. Also decided (R19-meta, defect F22): some decision in the decoding family depends on both the castling rights and the placement, on both the en-passant square and the placement, and on both the en-passant square and the side to move, and rejects or repairs. Also decided (R19-homes, defects F22/F34): each castling right is checked against its own king and rook home squares, and the validating function accepts only placements with exactly one king per side. R19-index also covers the command loops of both drivers (defect F36): a token picked by a constant index or a constant-bounded sub-list of the split input line is dominated by a length test. R19-counters (defect F39): the half-move clock and full-move number fen.Decode accepts are bounded at least 2^31 below the end of int, so the FEN a game reports stays decodable.",
     "C13": " Also decided: the child window is the exact pre-image of the parent's window under Negate(IncrementMateDistance(.)) on every abstract score region (R13-frame; defect F19), and the negamax discipline of C03 including 'the move loop is left early only on alpha >= beta'.",
     "C15": " The time-control clause also requires the divisor of the time split to have a finite upper bound on every path (no int64 wrap-around to zero or below for a huge movestogo; defect F21). Anchors are role-based (the function started by the launcher, the handle's fields by type and use); the stop tests are recognised in the controller or in a bool helper it consults. Also decided: at every call of the time-control enforcement the colour handed over is Board.Turn() itself (the limits come from the mover's clock).",
     "C16": " A timer whose callback halts the engine is kept and stopped (R16-timer, defect F27); a hash size from the command line reaches the engine only range-checked (R16-options, defect F28); the completion's compare-and-swap expects a per-search id handed in by the caller and info lines are printed only for the search they belong to (R16-stale restated; the former known finding F12 is repaired), and searches are completed by the command loop itself, never by a goroutine it started (defect F32); the output channel is closed only after the forwarders were joined (R16-close-owner decides the join; the former known finding F11 is repaired); no command other than quit, end of input or close leaves the command loop (the former known finding F13 is repaired) - C16 has no listed findings left. The rules read the active flag through a representation-agnostic model (clear / arm / win / load). The noise generator's mutex must be shared by every copy of the generator (not a by-value field of a copied receiver). Also decided (R16-supersede): a command that halts the engine's search on the way to something else clears the active flag first; goroutines started by the command loop share only variables that are no longer assigned. R16-locks decides ownership generally: a plain (non-channel, non-sync) driver field that the command loop writes is touched by no asynchronously started function or its helpers. Also decided (R16-flush, defect F38): in every function that creates a driver the output channel is consumed by a call the function waits for, so nothing the driver emitted is lost when the process exits.",
